@@ -6,10 +6,13 @@ import (
 	"fmt"
 	"os"
 	"os/exec"
+	"regexp"
 	"strings"
 	"sync"
 	"time"
 )
+
+var pipeSymRe = regexp.MustCompile(`\|[^|]+\|`)
 
 type solverCfg struct {
 	name string
@@ -32,16 +35,49 @@ func solverConfigs(timeoutS int, seed int) []solverCfg {
 func (vc *VC) queryText(o *Obl, wantModel bool) string {
 	var b strings.Builder
 	b.WriteString(vc.eng.prelude.text)
+	// components that the body of this query never mentions are left out together with their
+	// invariants (predeclare declares many that a given function does not touch)
+	var body strings.Builder
+	for _, l := range vc.lines[:o.At] {
+		body.WriteString(l)
+		body.WriteByte('\n')
+	}
+	bodyText := body.String() + o.Guard + " " + o.Goal
 	b.WriteString("\n; ---- components\n")
-	for _, h := range vc.header {
-		b.WriteString(h)
-		b.WriteByte('\n')
+	syms := make([][]string, len(vc.header))
+	for k, h := range vc.header {
+		syms[k] = pipeSymRe.FindAllString(h, -1)
+	}
+	// assertions (invariants) are kept when the component they are about occurs in the body;
+	// declarations are kept for every symbol that the body or a kept assertion mentions
+	needed := map[string]bool{"|alloc@0|": true}
+	include := make([]bool, len(vc.header))
+	for k, h := range vc.header {
+		if strings.HasPrefix(h, "(declare-") {
+			continue
+		}
+		if len(syms[k]) == 0 || syms[k][0] == "|alloc@0|" || strings.Contains(bodyText, syms[k][0]) {
+			include[k] = true
+			for _, sy := range syms[k] {
+				needed[sy] = true
+			}
+		}
+	}
+	for k, h := range vc.header {
+		if strings.HasPrefix(h, "(declare-") {
+			if len(syms[k]) == 0 || needed[syms[k][0]] || strings.Contains(bodyText, syms[k][0]) {
+				include[k] = true
+			}
+		}
+	}
+	for k, h := range vc.header {
+		if include[k] {
+			b.WriteString(h)
+			b.WriteByte('\n')
+		}
 	}
 	b.WriteString("; ---- body\n")
-	for _, l := range vc.lines[:o.At] {
-		b.WriteString(l)
-		b.WriteByte('\n')
-	}
+	b.WriteString(body.String())
 	fmt.Fprintf(&b, "; ---- obligation %s\n; %s\n", o.Name, strings.ReplaceAll(o.Src, "\n", " "))
 	fmt.Fprintf(&b, "(assert %s)\n(assert (not %s))\n(check-sat)\n", o.Guard, o.Goal)
 	if wantModel {
